@@ -183,8 +183,11 @@ class JsonDocument(HierDictDocument):
                     in_string = in_string.decode(in_string_encoding)
             ctx.in_document = json.loads(in_string, **self.kwargs)
 
-        except (JSONDecodeError, UnicodeError, LookupError) as e:
-            # the latter two: wrong or unknown charset
+        except (JSONDecodeError, UnicodeError, LookupError, RecursionError) \
+                                                                           as e:
+            # UnicodeError, LookupError: wrong or unknown charset
+            # RecursionError: a document nested deeper than the interpreter
+            # can follow
             raise Fault('Client.JsonDecodeError', repr(e))
 
     def create_out_string(self, ctx, out_string_encoding='utf8'):
